@@ -75,6 +75,9 @@ type Chan struct {
 	Q      []Value
 	Closed bool
 	Nil    bool
+	// RecvWaiting counts threads parked in a receive (or a select with a receive case) on
+	// this channel; an unbuffered send can complete only towards such a receiver.
+	RecvWaiting int
 }
 
 type Tuple []Value
